@@ -33,6 +33,7 @@ type Cfg struct {
 	NoMultiRet bool
 	PureConds  bool // no calls under && / ||, in else-if conditions and in case expressions (Go would short-circuit them)
 	IO         bool // input/read/write/exists and program calls (never executed by the harness: C16 only)
+	ErrSpell   bool // string types may be spelled "error" and the empty string literal nil (README: "Error and nil")
 }
 
 type varInfo struct {
@@ -1676,5 +1677,53 @@ func Stmts(t *rapid.T, cfg Cfg) ([]ts.Stmt, map[string]int) {
 			}
 		}
 	}
+	if cfg.ErrSpell {
+		out = g.errSpell(out)
+	}
 	return out, g.Tags
+}
+
+// errSpell respells some string types as "error" and some empty string literals as nil: same meaning by the README.
+func (g *G) errSpell(in []ts.Stmt) []ts.Stmt {
+	rw := &ts.Rewriter{}
+	rw.Site = func(e ts.Expr, kind string) (ts.Expr, bool) {
+		l, ok := e.(ts.StrLit)
+		if !ok || l.V != "" {
+			return nil, false
+		}
+		switch kind {
+		case "cmp-left", "cmp-right", "assigned-value", "return-value", "argument", "typed-init", "element-value":
+			if g.chance("nil-spelling", 50) {
+				g.tag("nil-spelled")
+				return ts.StrLit{Nil: true}, true
+			}
+		}
+		return nil, false
+	}
+	rw.Decl = func(d ts.VarDecl) ts.VarDecl {
+		if d.Ty == ts.TString && (d.Form == ts.DeclVarType || d.Form == ts.DeclVarTypeValue) && g.chance("error-spelling", 30) {
+			d.Err = true
+			g.tag("error-spelled")
+		}
+		return d
+	}
+	rw.Func = func(f ts.FuncDef) ts.FuncDef {
+		for i := range f.Params {
+			if f.Params[i].Ty == ts.TString && g.chance("error-spelling", 30) {
+				f.Params[i].Err = true
+				g.tag("error-spelled")
+			}
+		}
+		for i, r := range f.Rets {
+			if r == ts.TString && g.chance("error-spelling", 40) {
+				if f.RetErr == nil {
+					f.RetErr = make([]bool, len(f.Rets))
+				}
+				f.RetErr[i] = true
+				g.tag("error-spelled")
+			}
+		}
+		return f
+	}
+	return rw.Stmts(in)
 }
